@@ -21,15 +21,12 @@ pub open spec fn selected_by(sels: Seq<IfSelection>, n: int, intf: Interface) ->
     else if kind_matches(sels[n - 1].if_kind, intf) { sels[n - 1].selected }
     else { selected_by(sels, n - 1, intf) }
 }
-impl Zeroconf {
-    // HashMap::get_mut / entry API / socket code: not extractable
-    #[verifier::external_body]
-    pub fn apply_intf_selections(&mut self, interfaces: Vec<Interface>)
-        ensures final(self).if_selections@ == old(self).if_selections@,
-    { unimplemented!() }
-}
+// the system's interface list at the moment of the call (one call per handler: frozen like the clock)
+pub uninterp spec fn sys_interfaces(with_loopback: bool, with_apple_p2p: bool) -> Seq<Interface>;
 #[verifier::external_body]
-pub fn my_ip_interfaces_inner(with_loopback: bool, with_apple_p2p: bool) -> (r: Vec<Interface>) { unimplemented!() }
+pub fn my_ip_interfaces_inner(with_loopback: bool, with_apple_p2p: bool) -> (r: Vec<Interface>)
+    ensures r@ == sys_interfaces(with_loopback, with_apple_p2p),
+{ unimplemented!() }
 // `interfaces.iter().find(closure)`: not extractable.  Turns IfKind::Addr(ip) into the index form of the
 // interface that owns it, every other kind is returned unchanged.
 pub uninterp spec fn addr_to_index(k: IfKind, interfaces: Seq<Interface>) -> IfKind;
